@@ -16,6 +16,7 @@ package main
 
 import (
 	"fmt"
+	"regexp"
 	"strings"
 
 	"go.sia.tech/core/consensus"
@@ -25,6 +26,8 @@ import (
 	"verif/internal/mutate"
 )
 
+var reAuth = regexp.MustCompile(`invalid (renter|host) signature|signature N is invalid|failed to satisfy spend policy|claims incorrect (policy|unlock conditions)|missing signatures|is redundant|unsigned FoundationAddressUpdate`)
+
 type env struct {
 	b   *harness.B
 	c   *chaingen.Chain
@@ -32,7 +35,21 @@ type env struct {
 }
 
 func (e *env) judge(kind, class string, must bool, reason string, cs consensus.State, blk types.Block, kinds []string) {
-	err, _ := e.c.TryVariant(&blk)
+	var err error
+	panicked := false
+	func() {
+		defer func() {
+			if r := recover(); r != nil {
+				// a crash of validation on a tampered block is C10's subject; for C03 it is "not accepted"
+				panicked = true
+				err = fmt.Errorf("validation panicked: %v", r)
+			}
+		}()
+		err, _ = e.c.TryVariant(&blk)
+	}()
+	if panicked {
+		e.b.Count("tampers_on_which_validation_panicked(judged by C10):"+kind+class, 1)
+	}
 	if chaingen.IsSealFailure(err) {
 		e.b.Inconclusive("variant could not be sealed")
 		return
@@ -203,6 +220,20 @@ func (e *env) v1Witness(cs consensus.State, orig types.Block, kinds []string) {
 		variant("signature-dropped", true, func(tt *types.Transaction) bool {
 			tt.Signatures = tt.Signatures[1:]
 			return true
+		})
+		// the same key signing twice must not count as two signatures
+		variant("one-key-signs-twice-instead-of-two-distinct-keys", true, func(tt *types.Transaction) bool {
+			for a := range tt.Signatures {
+				for b2 := a + 1; b2 < len(tt.Signatures); b2++ {
+					if tt.Signatures[a].ParentID == tt.Signatures[b2].ParentID && !sigUnderUnknownAlg(tt, a) && !ucAmbiguous(tt, a) && tt.Signatures[a].CoveredFields.WholeTransaction && len(tt.Signatures[a].CoveredFields.Signatures) == 0 {
+						// signature b2 is replaced by a second, fully valid signature of key a
+						tt.Signatures[b2] = tt.Signatures[a]
+						tt.Signatures[b2].Signature = append([]byte(nil), tt.Signatures[a].Signature...)
+						return true
+					}
+				}
+			}
+			return false
 		})
 		variant("signature-duplicated", true, func(tt *types.Transaction) bool {
 			tt.Signatures = append(tt.Signatures, tt.Signatures[0])
@@ -548,6 +579,20 @@ func (e *env) v2Witness(cs consensus.State, orig types.Block, kinds []string) {
 				rev.RenterSignature, rev.HostSignature = rev.HostSignature, rev.RenterSignature
 				return true
 			})
+			if st, ok := standing[r.Parent.ID]; ok && (st.RenterPublicKey != r.Parent.V2FileContract.RenterPublicKey || st.HostPublicKey != r.Parent.V2FileContract.HostPublicKey) {
+				// an earlier revision of this block rotated a key: the rotated-out keys must no longer authorize
+				pr, okR := c.W.Priv(r.Parent.V2FileContract.RenterPublicKey)
+				ph, okH := c.W.Priv(r.Parent.V2FileContract.HostPublicKey)
+				if okR && okH {
+					variant("later-revision-in-block-signed-by-rotated-out-keys", true, func(tt *types.V2Transaction) bool {
+						rev := &tt.FileContractRevisions[k].Revision
+						hsh := cs.ContractSigHash(*rev)
+						rev.RenterSignature, rev.HostSignature = pr.SignHash(hsh), ph.SignHash(hsh)
+						return true
+					})
+					e.b.Count("in_block_key_rotation_followed_by_revision_seen", 1)
+				}
+			}
 			if r.Revision.RenterPublicKey != cur.RenterPublicKey {
 				if nk, ok := c.W.Priv(r.Revision.RenterPublicKey); ok {
 					variant("rotating-revision-signed-by-proposed-renter-key", true, func(tt *types.V2Transaction) bool {
@@ -653,6 +698,9 @@ func run(b *harness.B) {
 		c := chaingen.NewChain(net, rng)
 		e := &env{b: b, c: c, per: b.Pick(14, 40)}
 		c.OnAccepted = func(cs consensus.State, orig types.Block, bs consensus.V1BlockSupplement, kinds []string) {
+			if len(kinds) >= 3 {
+				b.Sample(chaingen.DescribeBlock(cs, orig, kinds))
+			}
 			b.Count("accepted_blocks_tampered", 1)
 			b.SetAdd("eras", chaingen.Era(net.N, cs.Index.Height+1))
 			e.v1Fields(cs, orig, kinds)
@@ -664,6 +712,16 @@ func run(b *harness.B) {
 			done += c.Grow(1+rng.IntN(10), chaingen.Plan{MaxTxns: 5})
 			if c.Height() > 2 && rng.IntN(6) == 0 {
 				c.RevertTip()
+			}
+		}
+		for k, v := range c.Stats {
+			if strings.HasPrefix(k, "gen_rejected:") {
+				cls := strings.TrimPrefix(k, "gen_rejected:")
+				if reAuth.MatchString(cls) {
+					b.Violate("C03/valid-signed-block-rejected/"+cls, fmt.Sprintf("%d generated blocks whose transactions are correctly authorized were rejected: %s", v, cls), map[string]any{"network": net.Name, "family": fam})
+				} else {
+					b.Count("generator_library_disagreement:"+cls, v)
+				}
 			}
 		}
 		if i == 0 {
